@@ -1,4 +1,4 @@
-CONSTANTS IdPool = {a, b} LruCap = 2 MaxBatch = 2 MaxLists = 2 NoDedup = TRUE
+CONSTANTS IdPool = {a, b} LruCap = 2 MaxBatch = 2 MaxLists = 2 NoDedup = TRUE ForgetOnFailure = FALSE
 INIT Init
 NEXT Next
 CHECK_DEADLOCK FALSE
